@@ -14,7 +14,7 @@ GLUE = {
          "DirEntryEditor write-back of size across handles; two handles on the same file (documented as unsupported)",
          "File harnesses use four concrete fixture geometries (FAT12 512 B, FAT16 2 KiB, FAT32 4 KiB clusters, 16 TiB volume); the geometry arithmetic itself is proved for all validated BPBs (geom_*)",
          "the chain walk inside File::seek is bounded (target within the first 4 clusters)"],
- "C03": ["directory-tree part of the invariant: dot/dot-dot contents, stale '..' after a move, nothing after the end marker, duplicate-name freedom, deletion of all slots of an entry in remove/rename_internal (Dir glue, outside both verifiers)",
+ "C03": ["directory-tree part of the invariant: stale '..' after a move, nothing after the end marker, duplicate-name freedom, deletion of all slots of an entry in remove/rename_internal (Dir glue out of reach, DESIGN 10.2); dot / dot-dot contents ARE an obligation (dir__glue::create_dir_wiring_*: real create_dir body, callees by contract) for the paths on which every entry write succeeds or the first one fails",
          "that every caller passes alloc_cluster / free a cluster it owns and a well-formed chain (wf_chain is a precondition)"],
  "C04": ["that every in-memory change is eventually followed by one of the contracted flushes before the handle dies; equality of whole trees across a remount; File::extents (iterator-adaptor chain) is not under contract"],
  "C05": ["that every path which changes the table goes through FileSystem::{alloc_cluster,free_cluster_chain,truncate_cluster_chain} (true by construction: the table mutators have no other callers besides format_volume)",
@@ -34,7 +34,7 @@ GLUE = {
  "C15": ["'without side effects' for rejected names (order of validation inside create_*/rename: C01 glue)",
          "strings of arbitrary length: per-character and per-length facts are complete, multi-character combinations are bounded",
          "Unicode case folding itself (char::to_uppercase) is trusted (A-STD)"],
- "C16": ["that find_entry visits every live entry before generate() is consulted; termination of the retry loop in check_for_existence (pigeonhole over 2^16*9 candidates)"],
+ "C16": ["that find_entry visits every live entry (the scan-before-generate protocol of check_for_existence IS an obligation: dir__glue::existence_scan_protocol); termination of the retry loop in check_for_existence (pigeonhole over 2^16*9 candidates); that write_entry / alloc_and_write_lfn_entries pass the alias of the same call to lfn_checksum (out of reach, DESIGN 10.2)"],
  "C17": ["DirIter::read_dir_entry's loop (one slot consumed per iteration) and ClusterIterator termination under valid cluster pointers are argued, not proved"],
  "C18": ["'operations on other entries leave an entry's timestamps untouched' needs the directory-level frame (C01 glue)"],
  "C19": ["byte-identity of images over operation histories; only contract equivalence of the cfg-selected implementations is proved"],
@@ -66,13 +66,13 @@ _BASE_CLAIMS = {
 }
 
 CLAIMS = {
- "C02": {"text": "Per-call contracts of File::{read,write,seek,flush,drop} proved from ANY state satisfying the type invariant inv_file, for every buffer length, every cursor, every device content with valid cluster pointers: bounds on the count returned, the exact device address of the single data transfer (so reads and writes of the same offset hit the same bytes), cursor/size/first-cluster updates, re-establishment of inv_file. Composition over histories is by that invariant (stated, not mechanised). Partial: four fixture geometries, seek's chain walk bounded.",
+ "C02": {"text": "Per-call contracts of File::{read,write,seek,flush,drop} proved from ANY state satisfying the type invariant inv_file, for every buffer length, every cursor, every device content with valid cluster pointers: bounds on the count returned, the exact device address of the single data transfer (so reads and writes of the same offset hit the same bytes), cursor/size/first-cluster updates, re-establishment of inv_file. Composition over histories is by that invariant (stated, not mechanised). File::truncate is proved in modular form (real body against the contracts of the two chain operations). Partial: four fixture geometries, seek's chain walk bounded.",
          "note": _NOTE, "technique": "Kani single-call contracts on the real File code over a nondeterministic device + Verus/Kani geometry proofs for all validated BPBs"},
- "C03": {"text": "Allocation-table part and long-name-run part of the structural invariant, as contracts: FAT12/16/32 set/alloc_cluster/ClusterIterator::{free,truncate} proved in Verus for tables and chains of ANY size (exact frame: every other entry unchanged; allocated cluster was free; chain entries freed exactly; termination), LFN slot generation proved per step for every name length. The directory-tree part (dot entries, duplicates, slot deletion) is not decided.",
+ "C03": {"text": "Allocation-table part and long-name-run part of the structural invariant, as contracts: FAT12/16/32 set/alloc_cluster/ClusterIterator::{free,truncate} proved in Verus for tables and chains of ANY size (exact frame: every other entry unchanged; allocated cluster was free; chain entries freed exactly; termination), LFN slot generation proved per step for every name length. Of the directory-tree part, the wiring of create_dir / create_file (one zero-filled cluster, entry in the parent, '.' -> itself, '..' -> parent or 0 for the root) and of File::truncate / the chain release are obligations on the real bodies with callees replaced by their contracts; duplicates and slot deletion in remove / rename are not decided.",
          "note": _NOTE, "technique": "Verus contracts with loop invariants on mechanically extracted table functions; Kani per-step contract of the LFN generator; bounded Kani twins for replay"},
  "C04": {"text": "Every encoder/decoder pair is proved two-sided against a layout specification written from the FAT specification (boot sector, BPB, FS-info, 32-byte short and long slots) and the write-back contracts (DirEntryEditor::flush, File::flush/drop, unmount) are proved; equality of whole trees across a remount is not decided.",
          "note": _NOTE, "technique": "Kani loop-free symbolic harnesses over all byte blocks / field values; device-log contracts"},
- "C05": {"text": "Table level (Verus, unbounded): count_free = number of free entries, find_free/alloc_cluster return NotEnoughSpace only if no entry in range is free, free() returns exactly the number of entries freed. FileSystem level (Kani, modular against the table contracts via stubs): cached counter -1/+n, hint in range, stats caches the recount, FS-info image carries count and hint.",
+ "C05": {"text": "Table level (Verus, unbounded): count_free = number of free entries, find_free/alloc_cluster return NotEnoughSpace only if no entry in range is free, free() returns exactly the number of entries freed. FileSystem level (Kani, modular against the table contracts via stubs): cached counter -1/+n (alloc_cluster; truncate_cluster_chain / free_cluster_chain against the iterator contracts), write-back latch set whenever the counter changes, hint in range, stats caches the recount, FS-info image carries count and hint.",
          "note": _NOTE, "technique": "Verus loop invariants over free_count; Kani harnesses with contract stubs (#[kani::stub])"},
  "C06": _BASE_CLAIMS["C06"],
  "C07": _BASE_CLAIMS["C07"],
@@ -92,11 +92,11 @@ CLAIMS = {
          "note": _NOTE, "technique": "Kani device-log contracts (order of device calls)"},
  "C15": {"text": "Per-character acceptance proved for every char against the documented set; every length 0..300; ShortNameGenerator::new total on empty and multi-byte-first names; LFN slot generation lossless per step for every name length. Multi-character combinations are bounded (<= 4 ASCII chars).",
          "note": _NOTE, "technique": "Kani complete per-character / per-length harnesses; bounded string harnesses"},
- "C16": {"text": "Legality of every generated alias for every generator state, checksum link (lfn_checksum = specification; every slot carries it), reset/increment of next_iteration, hex encoding; the uniqueness step (after add_existing(e), generate() != e) is in the thorough tier (heavy). The directory scan feeding the generator and the retry-loop termination are glue.",
+ "C16": {"text": "Legality of every generated alias for every generator state, checksum link (lfn_checksum = specification; every slot carries it), reset/increment of next_iteration, hex encoding; the uniqueness step (after add_existing(e), generate() != e) is in the thorough tier (heavy). The scan-before-generate protocol of Dir::check_for_existence is an obligation on the real body (callees by contract); that the scan visits every live entry, and the retry-loop termination, are glue.",
          "note": _NOTE, "technique": "Kani complete harnesses over the full generator state"},
  "C17": {"text": "Every per-slot function the iterator calls is total on arbitrary bytes (slot codec, short-name decode, date/time decode incl. out-of-range values, checksum); the long-name builder step is in the thorough tier. Name-length bound and 'no foreign name' lemmas are not yet discharged (see DESIGN.md).",
          "note": _NOTE, "technique": "Kani complete harnesses over all 32-byte slots / 16-bit date-time words"},
- "C18": {"text": "Complete over the whole date/time domain: Kani function contracts on Date::encode / Time::encode (round trip at 10 ms / 2 s / 1 day resolution), decode total, setters touch only their fields, File::write stamps modified from the provider, read stamps accessed only with the option on, rename keeps stamps.",
+ "C18": {"text": "Complete over the whole date/time domain: Kani function contracts on Date::encode / Time::encode (round trip at 10 ms / 2 s / 1 day resolution), decode total, setters touch only their fields, File::write stamps modified from the provider, read stamps accessed only with the option on, rename keeps stamps, a new entry (create_sfn_entry) carries all three stamps from the provider for every provider time.",
          "note": _NOTE, "technique": "Kani function contracts (proof_for_contract) + complete harnesses"},
  "C19": {"text": "Contract equivalence: the cfg-selected long-name generator is proved against one and the same contract in the alloc and the fixed-buffer build. Byte-identity of images over histories is not decided.",
          "note": _NOTE, "technique": "same Kani contract discharged under two feature sets"},
